@@ -1,0 +1,15 @@
+//go:build verif
+
+// Package verifhooks re-exports internals for the external verification harness
+// (only built with the tag "verif").
+package verifhooks
+
+import "github.com/lorenzodonini/ocpp-go/internal/callbackqueue"
+
+// CallbackQueue gives the verification harness access to internal/callbackqueue.
+type CallbackQueue = callbackqueue.CallbackQueue
+
+// NewCallbackQueue returns callbackqueue.New().
+func NewCallbackQueue() CallbackQueue {
+	return callbackqueue.New()
+}
